@@ -16,12 +16,16 @@ pub mod driver;
 pub mod host;
 pub mod machine;
 pub mod monitors;
+pub mod monitors2;
 pub mod payload;
 pub mod runner;
 pub mod scen;
+pub mod scen2;
 pub mod sched;
+pub mod subcall;
 pub mod trace;
 pub mod v1exec;
+pub mod work;
 
 #[global_allocator]
 static GLOBAL: alloc::Counting = alloc::Counting;
